@@ -126,16 +126,27 @@ def main():
         if all(n in sp.units for spec in (a, b, cc) for _, n, _ in spec):
             for m in (["dec", "7", "4"], ["dec", "-3", "1"], ["dec", "12345", "1000"]):
                 inst = (a, b, cc, m, ["dec", "4", "1"]); insts.append(inst); ops += bundle(*inst)
+    # dimensionless units: angle units with and without prefixes, and the registered unit "one" (with a prefix, too) as start, end or
+    # intermediate -- whatever converts must agree with converting directly
+    for a, b, cc in ((U_("radian"), U_("degree"), U_("one")), (U_("radian", 1, "milli"), U_("degree"), U_("radian")), (U_("radian"), U_("one", 1, "kilo"), U_("degree")),
+                     (U_("one"), U_("radian"), U_("degree")), (U_("degree"), U_("arcminute"), U_("radian", 1, "micro")), (U_("arcsecond", 1, "milli"), U_("radian"), U_("degree")),
+                     (U_("degree"), U_("radian", 1, "milli"), U_("one", 1, "milli")), (U_("steradian"), U_("one"), U_("degree", 2))):
+        if all(n == "one" or n in sp.units for spec in (a, b, cc) for _, n, _ in spec):
+            for m in (["int", "3", "1"], ["float", "5", "2"], ["dec", "7", "4"]):
+                inst = (a, b, cc, m, ["int", "4", "1"]); insts.append(inst); ops += bundle(*inst)
     r = impl("convsys_worker.py", {"systems": True, "cases": ops})
     cs, rs, where = flatten(ops, r["results"])
     info = run_block(c, "ship", r["export"], cs, rs, Fraction(1, 10**11))
     at = {w: info.get(i) for i, w in enumerate(where)}
+    def sr_(x_, y_):
+        try: return sp.size_ratio(x_, y_)
+        except KeyError: return None          # the unit "one" has no entry in the size oracle's named units
     for n, inst in enumerate(insts):
         deg = max(sp.degree(inst[0]), sp.degree(inst[1]), sp.degree(inst[2]))
         c.count({"inst": inst}, nontrivial=(inst[0] != inst[1]))
         judge(c, "ship", "shipped", inst, ops[6 * n:6 * n + 6], r["results"][6 * n:6 * n + 6],
               lambda i, j, n=n: at.get((6 * n + i, j)), lambda d: Fraction(1, 10**5) * d, bad_edges, stats, deg,
-              ratios=[sp.size_ratio(inst[0], inst[1]), sp.size_ratio(inst[0], inst[2]), sp.size_ratio(inst[1], inst[0])])
+              ratios=[sr_(inst[0], inst[1]), sr_(inst[0], inst[2]), sr_(inst[1], inst[0])])
     c.sample({"a": insts[0][0], "b": insts[0][1], "c": insts[0][2], "m": insts[0][3], "k": insts[0][4],
               "steps": [[st.get("m") or st.get("err") for st in x["steps"]] for x in r["results"][:6]]})
     # ---------------- the first conversion of a pair made by several threads at once gives what a single thread gets
